@@ -54,6 +54,31 @@ def r1_inputs(ctx, docs):
         ctx.check(len(c.args) == 2 and not c.keywords and named, 'C11.R1', f'{func_label(f)}|native-inputs', loc(f, c), 'the adapter hands next_cut only the carry-over buffer and the finality flag', f'next_cut is called with {src(c, 80)}')
 
 
+def _padding_expr_ok(p, expr):
+    ok = False
+    why = f'`{src(expr, 100)}`'
+    if isinstance(expr, ast.BinOp) and isinstance(expr.op, ast.Mod):
+        num, den = expr.left, expr.right
+        al_ok = False
+        if isinstance(den, ast.Name):
+            for n in ast.walk(p.node):
+                if isinstance(n, ast.NamedExpr) and isinstance(n.target, ast.Name) and n.target.id == den.id and (dotted(n.value) or '').endswith('chunker.alignment'):
+                    al_ok = True
+                if isinstance(n, ast.Assign) and any(isinstance(t, ast.Name) and t.id == den.id for t in n.targets) and (dotted(n.value) or '').endswith('chunker.alignment'):
+                    al_ok = True
+        elif (dotted(den) or '').endswith('chunker.alignment'):
+            al_ok = True
+        neg = isinstance(num, ast.UnaryOp) and isinstance(num.op, ast.USub)
+        inner = num.operand if neg else None
+        streamed = isinstance(inner, ast.BinOp) and isinstance(inner.op, ast.Sub) and isinstance(inner.left, ast.Attribute) and inner.left.attr == 'stream_end' and isinstance(inner.right, ast.Attribute) and inner.right.attr == 'stream_start' and dotted(inner.left.value) is not None and dotted(inner.left.value) == dotted(inner.right.value)
+        ok = al_ok and neg and streamed
+        if not streamed:
+            why = f'the padded length is computed from `{src(inner if inner is not None else num, 80)}`, not from the bytes actually streamed for the previous file (its stream_end - stream_start)'
+        elif not al_ok:
+            why = f'the modulus `{src(den)}` is not the chunker adapter\'s alignment'
+    return ok, why
+
+
 def r2_padding(ctx, docs, stride):
     corpus = ctx.corpus
     snap = corpus.func('repository', 'Repository.snapshot')
@@ -65,31 +90,21 @@ def r2_padding(ctx, docs, stride):
     ctx.floor('C11.R2', 'padding yield (bytes(n)) in the stream producer', len(pad_yields))
     for y in pad_yields:
         arg = y.value.args[0]
-        expr = arg
+        exprs = [arg]
         if isinstance(arg, ast.Name):
-            defs = [a for a in walk_local(p.node) if isinstance(a, ast.Assign) and any(isinstance(t, ast.Name) and t.id == arg.id for t in a.targets)]
-            expr = defs[0].value if len(defs) == 1 else arg
-        ok = False
-        why = f'`{src(expr, 100)}`'
-        if isinstance(expr, ast.BinOp) and isinstance(expr.op, ast.Mod):
-            num, den = expr.left, expr.right
-            al_ok = False
-            if isinstance(den, ast.Name):
-                for n in ast.walk(p.node):
-                    if isinstance(n, ast.NamedExpr) and isinstance(n.target, ast.Name) and n.target.id == den.id and (dotted(n.value) or '').endswith('chunker.alignment'):
-                        al_ok = True
-                    if isinstance(n, ast.Assign) and any(isinstance(t, ast.Name) and t.id == den.id for t in n.targets) and (dotted(n.value) or '').endswith('chunker.alignment'):
-                        al_ok = True
-            elif (dotted(den) or '').endswith('chunker.alignment'):
-                al_ok = True
-            neg = isinstance(num, ast.UnaryOp) and isinstance(num.op, ast.USub)
-            inner = num.operand if neg else None
-            streamed = isinstance(inner, ast.BinOp) and isinstance(inner.op, ast.Sub) and isinstance(inner.left, ast.Attribute) and inner.left.attr == 'stream_end' and isinstance(inner.right, ast.Attribute) and inner.right.attr == 'stream_start' and dotted(inner.left.value) is not None and dotted(inner.left.value) == dotted(inner.right.value)
-            ok = al_ok and neg and streamed
-            if not streamed:
-                why = f'the padded length is computed from `{src(inner if inner is not None else num, 80)}`, not from the bytes actually streamed for the previous file (its stream_end - stream_start)'
-            elif not al_ok:
-                why = f'the modulus `{src(den)}` is not the chunker adapter\'s alignment'
+            from ..cfg import reaching_defs
+
+            rd = reaching_defs(p.node, arg) or []
+            vals = [d.value for d in rd if isinstance(d, ast.Assign) and len(d.targets) == 1 and isinstance(d.targets[0], ast.Name)]
+            if vals and len(vals) == len(rd):
+                # a zero-length padding (`return 0` when the chunker has no alignment) inserts nothing
+                exprs = [v for v in vals if not (isinstance(v, ast.Constant) and v.value == 0)] or [arg]
+        ok = True
+        why = ''
+        for expr in exprs:
+            ok1, why1 = _padding_expr_ok(p, expr)
+            if not ok1:
+                ok, why = False, why1
         ctx.check(
             ok,
             'C11.R2',
